@@ -112,6 +112,9 @@ def sweep(verdict, exe, workloads, tag="oom", sigprefix="oom"):
     verdict.cov["evaluations"] += total
     verdict.cov["distinct_nontrivial"] += hit
     verdict.cov["injected_failures_by_function"] = fns
+    for n, w in list(enumerate(workloads))[:: max(1, len(workloads) // 5)][:5]:
+        verdict.sample({"workload": w.name, "target_call": w.target[:200], "allocation_requests_in_target": counts.get(n, 0),
+                        "failing_k_enumerated": "1..%d" % counts.get(n, 0)})
     return counts
 
 
